@@ -94,13 +94,14 @@ pub fn uf_content_key(data: &[u8]) -> ContentKey {
     ContentKey::from_bytes(d)
 }
 
-// Third-party codecs (modes Z and 4 are outside the claim): their decoders are only reachable on paths
-// the solver refutes (inner mode byte of a correctly decrypted chunk is 'N'); cut them cheaply.
-pub fn lz4_decompress_err(_input: &[u8], _min: usize) -> Result<Vec<u8>, lz4_flex::block::DecompressError> {
-    Err(lz4_flex::block::DecompressError::ExpectedAnotherByte)
+// Third-party codecs (modes Z and 4 are outside the claim).  In a correct container the inner mode byte
+// of a decrypted chunk is 'N', so the decoders are unreachable; reaching one is reported as a failed check
+// (and ends the path) instead of symbolically executing inflate / LZ4 on symbolic bytes.
+pub fn lz4_decompress_reached(_input: &[u8], _min: usize) -> Result<Vec<u8>, lz4_flex::block::DecompressError> {
+    panic!("mode-N program reached the LZ4 decoder (inner mode byte of a decrypted chunk is not 'N')")
 }
-pub fn zio_read_eof<R, D>(_obj: &mut R, _data: &mut D, _dst: &mut [u8]) -> std::io::Result<usize> {
-    Ok(0)
+pub fn zlib_new_reached<R>(_r: R) -> flate2::read::ZlibDecoder<R> {
+    panic!("mode-N program reached the zlib decoder (inner mode byte of a decrypted chunk is not 'N')")
 }
 
 // Key store: two-slot association list instead of the std HashMap (insert-or-overwrite / lookup).
@@ -165,15 +166,15 @@ pub struct Sym<const T: usize> {
 }
 impl<const T: usize> Sym<T> {
     /// Draws every symbolic input of a program harness (before any stub can draw).
-    pub fn any() -> Self {
+    pub fn any(ty_a: u8, ty_b: u8) -> Self {
         let s = Sym {
             pay: kani::any(),
             name_a: kani::any(),
             name_b: kani::any(),
             iv_a: kani::any(),
             iv_b: kani::any(),
-            ty_a: kani::any(),
-            ty_b: kani::any(),
+            ty_a,
+            ty_b,
             key_a: kani::any(),
             key_b: kani::any(),
             hi: kani::any(),
@@ -182,8 +183,6 @@ impl<const T: usize> Sym<T> {
         };
         kani::assume(s.j < 16);
         kani::assume(s.name_a != s.name_b);
-        kani::assume(s.ty_a == 0x53 || s.ty_a == 0x41);
-        kani::assume(s.ty_b == 0x53 || s.ty_b == 0x41);
         s
     }
     pub fn spec_a(&self) -> EncryptionSpec {
@@ -379,8 +378,12 @@ pub fn check_table<const T: usize>(file: &BlteFile, s: &Sym<T>) {
     }
 }
 
+/// Salsa20 / ARC4 type bytes (concrete per harness: a symbolic type makes the builder's Result, and with it every Vec length, path-dependent)
+pub const S: u8 = 0x53;
+pub const A: u8 = 0x41;
+
 macro_rules! blte_prog {
-    ($name:ident, $cs:expr, [$( $kind:ident $len:expr ),+]) => {
+    ($name:ident, $cs:expr, $ta:ident $tb:ident, [$( $kind:ident $len:expr ),+]) => {
         #[kani::proof]
         #[kani::unwind(26)]
         #[kani::stub(cascette_crypto::salsa20::Salsa20Cipher::generate_keystream, uf_generate_keystream)]
@@ -391,11 +394,11 @@ macro_rules! blte_prog {
         #[kani::stub(cascette_crypto::keys::TactKeyStore::get, ks_get)]
         #[kani::stub(std::hash::RandomState::new, fixed_random_state)]
         #[kani::stub(std::fmt::format, fmt_format_empty)]
-        #[kani::stub(lz4_flex::block::decompress_safe::decompress, lz4_decompress_err)]
-        #[kani::stub(flate2::zio::read, zio_read_eof)]
+        #[kani::stub(lz4_flex::block::decompress_safe::decompress, lz4_decompress_reached)]
+        #[kani::stub(flate2::read::ZlibDecoder::new, zlib_new_reached)]
         fn $name() {
             const T: usize = 0 $(+ $len)+;
-            let s: Sym<T> = Sym::any();
+            let s: Sym<T> = Sym::any($ta, $tb);
             let mut p = Prog::new($cs);
             $( p.step(&s, K::$kind, $len); )+
             p.finish(&s);
@@ -404,9 +407,132 @@ macro_rules! blte_prog {
 }
 
 // @family prop=C01 tier=quick timeout=600 role=builder-program-1call
-// @bounds one builder call (kind and payload length in the name: dn=add_data plain, de=add_data under with_encryption, mn/me=add_mixed_data None/Some, x=add_encrypted_data, c=add_chunk; cs<k>=chunk size), payload bytes, both key names (distinct), IVs, 16-byte keys, cipher types in {Salsa20, ARC4}, high 32 bits of the explicit block index: all symbolic
-// @encodes cascette_formats::blte::BlteBuilder::add_data, cascette_formats::blte::BlteBuilder::add_mixed_data, cascette_formats::blte::BlteBuilder::add_encrypted_data, cascette_formats::blte::BlteBuilder::add_chunk, cascette_formats::blte::BlteBuilder::with_encryption, cascette_formats::blte::BlteBuilder::without_encryption, cascette_formats::blte::BlteBuilder::with_chunk_size_unchecked, cascette_formats::blte::BlteBuilder::build, cascette_formats::blte::BlteBuilder::create_encrypted_chunk, cascette_formats::blte::BlteBuilder::create_encrypted_chunk_with_params, cascette_formats::blte::BlteBuilder::build_inner_payload, cascette_formats::blte::encrypt_chunk_with_key, cascette_formats::blte::decrypt_chunk_with_keys, cascette_formats::blte::decompress_chunk, cascette_formats::blte::BlteFile::decompress_with_keys, cascette_formats::blte::BlteHeader::multi_chunk_with_flags, cascette_formats::blte::ChunkInfo::from_chunk_data, cascette_formats::blte::ChunkData::new, cascette_formats::blte::ChunkData::compressed_data, cascette_formats::blte::ChunkData::verify_checksum, cascette_crypto::salsa20::Salsa20Cipher::new, cascette_crypto::salsa20::Salsa20Cipher::apply_keystream, cascette_crypto::salsa20::encrypt_salsa20, cascette_crypto::salsa20::decrypt_salsa20, cascette_crypto::arc4::Arc4Cipher::encrypt, cascette_crypto::arc4::Arc4Cipher::decrypt
-// @assumes Salsa20 block function = uninterpreted function of the 16-word state (C09 proves the real one); ARC4 keystream = uninterpreted function of the key (KSA/PRGA proved in C09); MD5 = uninterpreted function of (length, bytes); TactKeyStore add/get = two-slot association list instead of std HashMap; fmt::format off; compression mode N only (Z/4 outside); explicit block index of add_encrypted_data = chunk position (+ arbitrary high 32 bits)
-// @catches wrong block index handed to the cipher, key/IV/type of the wrong spec, dropped or duplicated chunk at the chunk-size boundary, inner mode byte missing or re-interpreted, swapped table sizes, checksum over the wrong bytes, wrong header_size / chunk count
-blte_prog!(c01_prog_dn0_cs1, 1, [Dn 0]);
+// @bounds one builder call; kind letters: dn = add_data plain (after without_encryption), de = add_data under with_encryption(spec A), mn / me = add_mixed_data(None / Some(spec B)), x = add_encrypted_data(spec B, explicit block index), c = add_chunk(ChunkData::new(.., None)); digit = payload length of that call; cs<k> = chunk size; payload bytes, two distinct key names, both IVs, both 16-byte keys, high 32 bits of the explicit block index, observed output index: all symbolic
+// @encodes cascette_formats::blte::BlteBuilder::add_data, cascette_formats::blte::BlteBuilder::add_mixed_data, cascette_formats::blte::BlteBuilder::add_encrypted_data, cascette_formats::blte::BlteBuilder::add_chunk, cascette_formats::blte::BlteBuilder::with_encryption, cascette_formats::blte::BlteBuilder::without_encryption, cascette_formats::blte::BlteBuilder::with_chunk_size_unchecked, cascette_formats::blte::BlteBuilder::build, cascette_formats::blte::BlteBuilder::create_encrypted_chunk, cascette_formats::blte::BlteBuilder::create_encrypted_chunk_with_params, cascette_formats::blte::BlteBuilder::build_inner_payload, cascette_formats::blte::encrypt_chunk_with_key, cascette_formats::blte::decrypt_chunk_with_keys, cascette_formats::blte::decompress_chunk, cascette_formats::blte::BlteFile::decompress_with_keys, cascette_formats::blte::BlteHeader::multi_chunk_with_flags, cascette_formats::blte::BlteHeader::single_chunk, cascette_formats::blte::ChunkInfo::from_chunk_data, cascette_formats::blte::ChunkData::new, cascette_formats::blte::ChunkData::from_compressed, cascette_formats::blte::ChunkData::compressed_data, cascette_formats::blte::ChunkData::verify_checksum, cascette_formats::blte::ChunkData::decompress, cascette_crypto::salsa20::Salsa20Cipher::new, cascette_crypto::salsa20::Salsa20Cipher::apply_keystream, cascette_crypto::salsa20::encrypt_salsa20, cascette_crypto::salsa20::decrypt_salsa20, cascette_crypto::arc4::Arc4Cipher::encrypt, cascette_crypto::arc4::Arc4Cipher::decrypt
+// @assumes Salsa20 block function = uninterpreted function of the 16-word state (first 16 keystream bytes; C09 proves the real one), Salsa20Cipher::new / apply_keystream real; ARC4 keystream = uninterpreted function of the 16-byte key (KSA/PRGA proved in C09), encrypt/decrypt real; MD5 = uninterpreted function of (length, bytes <= 24); TactKeyStore add/get = two-slot association list instead of std HashMap; fmt::format off; compression mode N only (zlib / LZ4 decoders are outside: reaching one is a failed check); cipher type per chunk spec concrete per harness (name suffix: s = Salsa20, a = ARC4; first letter spec A used by with_encryption, second spec B used by add_mixed_data / add_encrypted_data); explicit block index of add_encrypted_data = chunk position + arbitrary high 32 bits; CBMC field sensitivity for heap objects <= 1024 bytes; Kani assertion-reachability bookkeeping off
+// @catches wrong block index handed to the cipher (restart at 0, off by one, local instead of global position), key / IV / type of the wrong spec, dropped / duplicated / misordered chunk at the chunk-size boundary (<= vs <, last partial chunk), inner mode byte missing or re-interpreted (payload starting with N/Z/4/E/F), < 17 length check off by one, swapped table sizes, checksum over the wrong bytes, wrong header_size / chunk count, single-chunk header chosen for encrypted or multi-chunk content
+blte_prog!(c01_prog_dn0_cs1, 1, S S, [Dn 0]);
+blte_prog!(c01_prog_dn1_cs1, 1, S S, [Dn 1]);
+blte_prog!(c01_prog_dn3_cs1, 1, S S, [Dn 3]);
+blte_prog!(c01_prog_dn3_cs2, 2, S S, [Dn 3]);
+blte_prog!(c01_prog_dn3_cs3, 3, S S, [Dn 3]);
+blte_prog!(c01_prog_de1_cs1_s, 1, S S, [De 1]);
+blte_prog!(c01_prog_de2_cs1_s, 1, S S, [De 2]);
+blte_prog!(c01_prog_de3_cs2_s, 2, S S, [De 3]);
+blte_prog!(c01_prog_de3_cs3_a, 3, A S, [De 3]);
+blte_prog!(c01_prog_mn3_cs2, 2, S S, [Mn 3]);
+blte_prog!(c01_prog_me1_cs1_s, 1, S S, [Me 1]);
+blte_prog!(c01_prog_me3_cs1_s, 1, S S, [Me 3]);
+blte_prog!(c01_prog_me3_cs2_a, 2, S A, [Me 3]);
+blte_prog!(c01_prog_x1_s, 1, S S, [X 1]);
+blte_prog!(c01_prog_x3_a, 1, S A, [X 3]);
+blte_prog!(c01_prog_c0, 1, S S, [C 0]);
+blte_prog!(c01_prog_c3, 1, S S, [C 3]);
 // @end
+
+// @family prop=C01 tier=quick timeout=600 role=builder-program-2calls
+// @bounds two builder calls (every ordered pair of kinds except plain/plain renamings; pairs ending in add_data-under-encryption are in the finding family); kind letters: dn = add_data plain (after without_encryption), de = add_data under with_encryption(spec A), mn / me = add_mixed_data(None / Some(spec B)), x = add_encrypted_data(spec B, explicit block index), c = add_chunk(ChunkData::new(.., None)); digit = payload length of that call; cs<k> = chunk size; payload bytes, two distinct key names, both IVs, both 16-byte keys, high 32 bits of the explicit block index, observed output index: all symbolic
+// @encodes cascette_formats::blte::BlteBuilder::add_data, cascette_formats::blte::BlteBuilder::add_mixed_data, cascette_formats::blte::BlteBuilder::add_encrypted_data, cascette_formats::blte::BlteBuilder::add_chunk, cascette_formats::blte::BlteBuilder::with_encryption, cascette_formats::blte::BlteBuilder::without_encryption, cascette_formats::blte::BlteBuilder::with_chunk_size_unchecked, cascette_formats::blte::BlteBuilder::build, cascette_formats::blte::BlteBuilder::create_encrypted_chunk, cascette_formats::blte::BlteBuilder::create_encrypted_chunk_with_params, cascette_formats::blte::BlteBuilder::build_inner_payload, cascette_formats::blte::encrypt_chunk_with_key, cascette_formats::blte::decrypt_chunk_with_keys, cascette_formats::blte::decompress_chunk, cascette_formats::blte::BlteFile::decompress_with_keys, cascette_formats::blte::BlteHeader::multi_chunk_with_flags, cascette_formats::blte::BlteHeader::single_chunk, cascette_formats::blte::ChunkInfo::from_chunk_data, cascette_formats::blte::ChunkData::new, cascette_formats::blte::ChunkData::from_compressed, cascette_formats::blte::ChunkData::compressed_data, cascette_formats::blte::ChunkData::verify_checksum, cascette_formats::blte::ChunkData::decompress, cascette_crypto::salsa20::Salsa20Cipher::new, cascette_crypto::salsa20::Salsa20Cipher::apply_keystream, cascette_crypto::salsa20::encrypt_salsa20, cascette_crypto::salsa20::decrypt_salsa20, cascette_crypto::arc4::Arc4Cipher::encrypt, cascette_crypto::arc4::Arc4Cipher::decrypt
+// @assumes Salsa20 block function = uninterpreted function of the 16-word state (first 16 keystream bytes; C09 proves the real one), Salsa20Cipher::new / apply_keystream real; ARC4 keystream = uninterpreted function of the 16-byte key (KSA/PRGA proved in C09), encrypt/decrypt real; MD5 = uninterpreted function of (length, bytes <= 24); TactKeyStore add/get = two-slot association list instead of std HashMap; fmt::format off; compression mode N only (zlib / LZ4 decoders are outside: reaching one is a failed check); cipher type per chunk spec concrete per harness (name suffix: s = Salsa20, a = ARC4; first letter spec A used by with_encryption, second spec B used by add_mixed_data / add_encrypted_data); explicit block index of add_encrypted_data = chunk position + arbitrary high 32 bits; CBMC field sensitivity for heap objects <= 1024 bytes; Kani assertion-reachability bookkeeping off
+// @catches wrong block index handed to the cipher (restart at 0, off by one, local instead of global position), key / IV / type of the wrong spec, dropped / duplicated / misordered chunk at the chunk-size boundary (<= vs <, last partial chunk), inner mode byte missing or re-interpreted (payload starting with N/Z/4/E/F), < 17 length check off by one, swapped table sizes, checksum over the wrong bytes, wrong header_size / chunk count, single-chunk header chosen for encrypted or multi-chunk content
+blte_prog!(c01_prog_dn2_mn1_cs1, 1, S S, [Dn 2, Mn 1]);
+blte_prog!(c01_prog_dn2_me1_cs1, 1, S S, [Dn 2, Me 1]);
+blte_prog!(c01_prog_dn2_x1_cs1, 1, S S, [Dn 2, X 1]);
+blte_prog!(c01_prog_de2_dn1_cs1, 1, S S, [De 2, Dn 1]);
+blte_prog!(c01_prog_de2_mn1_cs1, 1, S S, [De 2, Mn 1]);
+blte_prog!(c01_prog_de2_me1_cs1, 1, S S, [De 2, Me 1]);
+blte_prog!(c01_prog_de2_x1_cs1, 1, S S, [De 2, X 1]);
+blte_prog!(c01_prog_de2_c1_cs1, 1, S S, [De 2, C 1]);
+blte_prog!(c01_prog_mn2_me1_cs1, 1, S S, [Mn 2, Me 1]);
+blte_prog!(c01_prog_mn2_x1_cs1, 1, S S, [Mn 2, X 1]);
+blte_prog!(c01_prog_mn2_c1_cs1, 1, S S, [Mn 2, C 1]);
+blte_prog!(c01_prog_me2_dn1_cs1, 1, S S, [Me 2, Dn 1]);
+blte_prog!(c01_prog_me2_mn1_cs1, 1, S S, [Me 2, Mn 1]);
+blte_prog!(c01_prog_me2_me1_cs1, 1, S S, [Me 2, Me 1]);
+blte_prog!(c01_prog_me2_x1_cs1, 1, S S, [Me 2, X 1]);
+blte_prog!(c01_prog_me2_c1_cs1, 1, S S, [Me 2, C 1]);
+blte_prog!(c01_prog_x1_dn1_cs1, 1, S S, [X 1, Dn 1]);
+blte_prog!(c01_prog_x1_mn1_cs1, 1, S S, [X 1, Mn 1]);
+blte_prog!(c01_prog_x1_me1_cs1, 1, S S, [X 1, Me 1]);
+blte_prog!(c01_prog_x1_x1_cs1, 1, S S, [X 1, X 1]);
+blte_prog!(c01_prog_x1_c1_cs1, 1, S S, [X 1, C 1]);
+blte_prog!(c01_prog_c1_dn1_cs1, 1, S S, [C 1, Dn 1]);
+blte_prog!(c01_prog_c1_me1_cs1, 1, S S, [C 1, Me 1]);
+blte_prog!(c01_prog_c1_x1_cs1, 1, S S, [C 1, X 1]);
+blte_prog!(c01_prog_c1_me3_cs2, 2, S S, [C 1, Me 3]);
+blte_prog!(c01_prog_me1_mn3_cs1, 1, S S, [Me 1, Mn 3]);
+blte_prog!(c01_prog_de2_de1_cs1_arc4, 1, A A, [De 2, De 1]);
+blte_prog!(c01_prog_x1_me2_cs1_arc4b, 1, S A, [X 1, Me 2]);
+// @end
+
+// @family prop=C01 tier=quick timeout=600 role=kf-encrypted-add_data-block-index
+// @bounds two builder calls, the second is add_data under with_encryption(Salsa20) starting at chunk position > 0; kind letters: dn = add_data plain (after without_encryption), de = add_data under with_encryption(spec A), mn / me = add_mixed_data(None / Some(spec B)), x = add_encrypted_data(spec B, explicit block index), c = add_chunk(ChunkData::new(.., None)); digit = payload length of that call; cs<k> = chunk size; payload bytes, two distinct key names, both IVs, both 16-byte keys, high 32 bits of the explicit block index, observed output index: all symbolic
+// @encodes cascette_formats::blte::BlteBuilder::add_data, cascette_formats::blte::BlteBuilder::add_mixed_data, cascette_formats::blte::BlteBuilder::add_encrypted_data, cascette_formats::blte::BlteBuilder::add_chunk, cascette_formats::blte::BlteBuilder::with_encryption, cascette_formats::blte::BlteBuilder::without_encryption, cascette_formats::blte::BlteBuilder::with_chunk_size_unchecked, cascette_formats::blte::BlteBuilder::build, cascette_formats::blte::BlteBuilder::create_encrypted_chunk, cascette_formats::blte::BlteBuilder::create_encrypted_chunk_with_params, cascette_formats::blte::BlteBuilder::build_inner_payload, cascette_formats::blte::encrypt_chunk_with_key, cascette_formats::blte::decrypt_chunk_with_keys, cascette_formats::blte::decompress_chunk, cascette_formats::blte::BlteFile::decompress_with_keys, cascette_formats::blte::BlteHeader::multi_chunk_with_flags, cascette_formats::blte::BlteHeader::single_chunk, cascette_formats::blte::ChunkInfo::from_chunk_data, cascette_formats::blte::ChunkData::new, cascette_formats::blte::ChunkData::from_compressed, cascette_formats::blte::ChunkData::compressed_data, cascette_formats::blte::ChunkData::verify_checksum, cascette_formats::blte::ChunkData::decompress, cascette_crypto::salsa20::Salsa20Cipher::new, cascette_crypto::salsa20::Salsa20Cipher::apply_keystream, cascette_crypto::salsa20::encrypt_salsa20, cascette_crypto::salsa20::decrypt_salsa20, cascette_crypto::arc4::Arc4Cipher::encrypt, cascette_crypto::arc4::Arc4Cipher::decrypt
+// @assumes Salsa20 block function = uninterpreted function of the 16-word state (first 16 keystream bytes; C09 proves the real one), Salsa20Cipher::new / apply_keystream real; ARC4 keystream = uninterpreted function of the 16-byte key (KSA/PRGA proved in C09), encrypt/decrypt real; MD5 = uninterpreted function of (length, bytes <= 24); TactKeyStore add/get = two-slot association list instead of std HashMap; fmt::format off; compression mode N only (zlib / LZ4 decoders are outside: reaching one is a failed check); cipher type per chunk spec concrete per harness (name suffix: s = Salsa20, a = ARC4; first letter spec A used by with_encryption, second spec B used by add_mixed_data / add_encrypted_data); explicit block index of add_encrypted_data = chunk position + arbitrary high 32 bits; CBMC field sensitivity for heap objects <= 1024 bytes; Kani assertion-reachability bookkeeping off
+// @catches wrong block index handed to the cipher (restart at 0, off by one, local instead of global position), key / IV / type of the wrong spec, dropped / duplicated / misordered chunk at the chunk-size boundary (<= vs <, last partial chunk), inner mode byte missing or re-interpreted (payload starting with N/Z/4/E/F), < 17 length check off by one, swapped table sizes, checksum over the wrong bytes, wrong header_size / chunk count, single-chunk header chosen for encrypted or multi-chunk content ; EXPECTED TO FAIL on the unchanged tree (genuine defect): assertion 'KF: add_data under with_encryption after earlier chunks ...' and the zlib/LZ4-decoder-reached checks
+blte_prog!(c01_kf_index_de2_de1_cs1, 1, S S, [De 2, De 1]);
+blte_prog!(c01_kf_index_me2_de1_cs1, 1, S S, [Me 2, De 1]);
+blte_prog!(c01_kf_index_c1_de1_cs1, 1, S S, [C 1, De 1]);
+// @end
+
+// @family prop=C01 tier=quick timeout=600 role=kf-encrypted-empty-payload
+// @bounds programs containing an encrypted chunk with an empty payload; kind letters: dn = add_data plain (after without_encryption), de = add_data under with_encryption(spec A), mn / me = add_mixed_data(None / Some(spec B)), x = add_encrypted_data(spec B, explicit block index), c = add_chunk(ChunkData::new(.., None)); digit = payload length of that call; cs<k> = chunk size; payload bytes, two distinct key names, both IVs, both 16-byte keys, high 32 bits of the explicit block index, observed output index: all symbolic
+// @encodes cascette_formats::blte::BlteBuilder::add_data, cascette_formats::blte::BlteBuilder::add_mixed_data, cascette_formats::blte::BlteBuilder::add_encrypted_data, cascette_formats::blte::BlteBuilder::add_chunk, cascette_formats::blte::BlteBuilder::with_encryption, cascette_formats::blte::BlteBuilder::without_encryption, cascette_formats::blte::BlteBuilder::with_chunk_size_unchecked, cascette_formats::blte::BlteBuilder::build, cascette_formats::blte::BlteBuilder::create_encrypted_chunk, cascette_formats::blte::BlteBuilder::create_encrypted_chunk_with_params, cascette_formats::blte::BlteBuilder::build_inner_payload, cascette_formats::blte::encrypt_chunk_with_key, cascette_formats::blte::decrypt_chunk_with_keys, cascette_formats::blte::decompress_chunk, cascette_formats::blte::BlteFile::decompress_with_keys, cascette_formats::blte::BlteHeader::multi_chunk_with_flags, cascette_formats::blte::BlteHeader::single_chunk, cascette_formats::blte::ChunkInfo::from_chunk_data, cascette_formats::blte::ChunkData::new, cascette_formats::blte::ChunkData::from_compressed, cascette_formats::blte::ChunkData::compressed_data, cascette_formats::blte::ChunkData::verify_checksum, cascette_formats::blte::ChunkData::decompress, cascette_crypto::salsa20::Salsa20Cipher::new, cascette_crypto::salsa20::Salsa20Cipher::apply_keystream, cascette_crypto::salsa20::encrypt_salsa20, cascette_crypto::salsa20::decrypt_salsa20, cascette_crypto::arc4::Arc4Cipher::encrypt, cascette_crypto::arc4::Arc4Cipher::decrypt
+// @assumes Salsa20 block function = uninterpreted function of the 16-word state (first 16 keystream bytes; C09 proves the real one), Salsa20Cipher::new / apply_keystream real; ARC4 keystream = uninterpreted function of the 16-byte key (KSA/PRGA proved in C09), encrypt/decrypt real; MD5 = uninterpreted function of (length, bytes <= 24); TactKeyStore add/get = two-slot association list instead of std HashMap; fmt::format off; compression mode N only (zlib / LZ4 decoders are outside: reaching one is a failed check); cipher type per chunk spec concrete per harness (name suffix: s = Salsa20, a = ARC4; first letter spec A used by with_encryption, second spec B used by add_mixed_data / add_encrypted_data); explicit block index of add_encrypted_data = chunk position + arbitrary high 32 bits; CBMC field sensitivity for heap objects <= 1024 bytes; Kani assertion-reachability bookkeeping off
+// @catches wrong block index handed to the cipher (restart at 0, off by one, local instead of global position), key / IV / type of the wrong spec, dropped / duplicated / misordered chunk at the chunk-size boundary (<= vs <, last partial chunk), inner mode byte missing or re-interpreted (payload starting with N/Z/4/E/F), < 17 length check off by one, swapped table sizes, checksum over the wrong bytes, wrong header_size / chunk count, single-chunk header chosen for encrypted or multi-chunk content ; EXPECTED TO FAIL on the unchanged tree (genuine defect): assertion 'KF: empty payload in an encrypted chunk ...'
+blte_prog!(c01_kf_empty_de0, 1, S S, [De 0]);
+blte_prog!(c01_kf_empty_me0, 1, S S, [Me 0]);
+blte_prog!(c01_kf_empty_x0_arc4, 1, S A, [X 0]);
+blte_prog!(c01_kf_empty_dn1_me0, 1, S S, [Dn 1, Me 0]);
+// @end
+
+// @family prop=C01 tier=thorough timeout=3000 mem=24 role=builder-program-3calls
+// @bounds three builder calls; kind letters: dn = add_data plain (after without_encryption), de = add_data under with_encryption(spec A), mn / me = add_mixed_data(None / Some(spec B)), x = add_encrypted_data(spec B, explicit block index), c = add_chunk(ChunkData::new(.., None)); digit = payload length of that call; cs<k> = chunk size; payload bytes, two distinct key names, both IVs, both 16-byte keys, high 32 bits of the explicit block index, observed output index: all symbolic
+// @encodes cascette_formats::blte::BlteBuilder::add_data, cascette_formats::blte::BlteBuilder::add_mixed_data, cascette_formats::blte::BlteBuilder::add_encrypted_data, cascette_formats::blte::BlteBuilder::add_chunk, cascette_formats::blte::BlteBuilder::with_encryption, cascette_formats::blte::BlteBuilder::without_encryption, cascette_formats::blte::BlteBuilder::with_chunk_size_unchecked, cascette_formats::blte::BlteBuilder::build, cascette_formats::blte::BlteBuilder::create_encrypted_chunk, cascette_formats::blte::BlteBuilder::create_encrypted_chunk_with_params, cascette_formats::blte::BlteBuilder::build_inner_payload, cascette_formats::blte::encrypt_chunk_with_key, cascette_formats::blte::decrypt_chunk_with_keys, cascette_formats::blte::decompress_chunk, cascette_formats::blte::BlteFile::decompress_with_keys, cascette_formats::blte::BlteHeader::multi_chunk_with_flags, cascette_formats::blte::BlteHeader::single_chunk, cascette_formats::blte::ChunkInfo::from_chunk_data, cascette_formats::blte::ChunkData::new, cascette_formats::blte::ChunkData::from_compressed, cascette_formats::blte::ChunkData::compressed_data, cascette_formats::blte::ChunkData::verify_checksum, cascette_formats::blte::ChunkData::decompress, cascette_crypto::salsa20::Salsa20Cipher::new, cascette_crypto::salsa20::Salsa20Cipher::apply_keystream, cascette_crypto::salsa20::encrypt_salsa20, cascette_crypto::salsa20::decrypt_salsa20, cascette_crypto::arc4::Arc4Cipher::encrypt, cascette_crypto::arc4::Arc4Cipher::decrypt
+// @assumes Salsa20 block function = uninterpreted function of the 16-word state (first 16 keystream bytes; C09 proves the real one), Salsa20Cipher::new / apply_keystream real; ARC4 keystream = uninterpreted function of the 16-byte key (KSA/PRGA proved in C09), encrypt/decrypt real; MD5 = uninterpreted function of (length, bytes <= 24); TactKeyStore add/get = two-slot association list instead of std HashMap; fmt::format off; compression mode N only (zlib / LZ4 decoders are outside: reaching one is a failed check); cipher type per chunk spec concrete per harness (name suffix: s = Salsa20, a = ARC4; first letter spec A used by with_encryption, second spec B used by add_mixed_data / add_encrypted_data); explicit block index of add_encrypted_data = chunk position + arbitrary high 32 bits; CBMC field sensitivity for heap objects <= 1024 bytes; Kani assertion-reachability bookkeeping off
+// @catches wrong block index handed to the cipher (restart at 0, off by one, local instead of global position), key / IV / type of the wrong spec, dropped / duplicated / misordered chunk at the chunk-size boundary (<= vs <, last partial chunk), inner mode byte missing or re-interpreted (payload starting with N/Z/4/E/F), < 17 length check off by one, swapped table sizes, checksum over the wrong bytes, wrong header_size / chunk count, single-chunk header chosen for encrypted or multi-chunk content
+blte_prog!(c01_prog3_me2_me1_me1_cs1, 1, S S, [Me 2, Me 1, Me 1]);
+blte_prog!(c01_prog3_me2_me1_x1_cs1, 1, S S, [Me 2, Me 1, X 1]);
+blte_prog!(c01_prog3_me2_me1_c1_cs1, 1, S S, [Me 2, Me 1, C 1]);
+blte_prog!(c01_prog3_me2_x1_me1_cs1, 1, S S, [Me 2, X 1, Me 1]);
+blte_prog!(c01_prog3_me2_x1_x1_cs1, 1, S S, [Me 2, X 1, X 1]);
+blte_prog!(c01_prog3_me2_x1_c1_cs1, 1, S S, [Me 2, X 1, C 1]);
+blte_prog!(c01_prog3_me2_c1_me1_cs1, 1, S S, [Me 2, C 1, Me 1]);
+blte_prog!(c01_prog3_me2_c1_x1_cs1, 1, S S, [Me 2, C 1, X 1]);
+blte_prog!(c01_prog3_me2_c1_c1_cs1, 1, S S, [Me 2, C 1, C 1]);
+blte_prog!(c01_prog3_x1_me1_me1_cs1, 1, S S, [X 1, Me 1, Me 1]);
+blte_prog!(c01_prog3_x1_me1_x1_cs1, 1, S S, [X 1, Me 1, X 1]);
+blte_prog!(c01_prog3_x1_me1_c1_cs1, 1, S S, [X 1, Me 1, C 1]);
+blte_prog!(c01_prog3_x1_x1_me1_cs1, 1, S S, [X 1, X 1, Me 1]);
+blte_prog!(c01_prog3_x1_x1_x1_cs1, 1, S S, [X 1, X 1, X 1]);
+blte_prog!(c01_prog3_x1_x1_c1_cs1, 1, S S, [X 1, X 1, C 1]);
+blte_prog!(c01_prog3_x1_c1_me1_cs1, 1, S S, [X 1, C 1, Me 1]);
+blte_prog!(c01_prog3_x1_c1_x1_cs1, 1, S S, [X 1, C 1, X 1]);
+blte_prog!(c01_prog3_x1_c1_c1_cs1, 1, S S, [X 1, C 1, C 1]);
+blte_prog!(c01_prog3_c1_me1_me1_cs1, 1, S S, [C 1, Me 1, Me 1]);
+blte_prog!(c01_prog3_c1_me1_x1_cs1, 1, S S, [C 1, Me 1, X 1]);
+blte_prog!(c01_prog3_c1_me1_c1_cs1, 1, S S, [C 1, Me 1, C 1]);
+blte_prog!(c01_prog3_c1_x1_me1_cs1, 1, S S, [C 1, X 1, Me 1]);
+blte_prog!(c01_prog3_c1_x1_x1_cs1, 1, S S, [C 1, X 1, X 1]);
+blte_prog!(c01_prog3_c1_x1_c1_cs1, 1, S S, [C 1, X 1, C 1]);
+blte_prog!(c01_prog3_c1_c1_me1_cs1, 1, S S, [C 1, C 1, Me 1]);
+blte_prog!(c01_prog3_c1_c1_x1_cs1, 1, S S, [C 1, C 1, X 1]);
+blte_prog!(c01_prog3_de2_me1_x1_cs1_ss, 1, S S, [De 2, Me 1, X 1]);
+blte_prog!(c01_prog3_de1_c1_me2_cs1_sa, 1, S A, [De 1, C 1, Me 2]);
+blte_prog!(c01_prog3_dn2_me1_mn2_cs1_ss, 1, S S, [Dn 2, Me 1, Mn 2]);
+blte_prog!(c01_prog3_mn1_x1_dn3_cs2_ss, 2, S S, [Mn 1, X 1, Dn 3]);
+blte_prog!(c01_prog3_de3_x1_me3_cs2_as, 2, A S, [De 3, X 1, Me 3]);
+blte_prog!(c01_prog3_dn3_mn3_c3_cs3_ss, 3, S S, [Dn 3, Mn 3, C 3]);
+// @end
+
+// @family prop=C01 tier=thorough timeout=3000 mem=24 role=kf-encrypted-add_data-block-index-more
+// @bounds further programs with add_data under with_encryption(Salsa20) at chunk position > 0; kind letters: dn = add_data plain (after without_encryption), de = add_data under with_encryption(spec A), mn / me = add_mixed_data(None / Some(spec B)), x = add_encrypted_data(spec B, explicit block index), c = add_chunk(ChunkData::new(.., None)); digit = payload length of that call; cs<k> = chunk size; payload bytes, two distinct key names, both IVs, both 16-byte keys, high 32 bits of the explicit block index, observed output index: all symbolic
+// @encodes cascette_formats::blte::BlteBuilder::add_data, cascette_formats::blte::BlteBuilder::add_mixed_data, cascette_formats::blte::BlteBuilder::add_encrypted_data, cascette_formats::blte::BlteBuilder::add_chunk, cascette_formats::blte::BlteBuilder::with_encryption, cascette_formats::blte::BlteBuilder::without_encryption, cascette_formats::blte::BlteBuilder::with_chunk_size_unchecked, cascette_formats::blte::BlteBuilder::build, cascette_formats::blte::BlteBuilder::create_encrypted_chunk, cascette_formats::blte::BlteBuilder::create_encrypted_chunk_with_params, cascette_formats::blte::BlteBuilder::build_inner_payload, cascette_formats::blte::encrypt_chunk_with_key, cascette_formats::blte::decrypt_chunk_with_keys, cascette_formats::blte::decompress_chunk, cascette_formats::blte::BlteFile::decompress_with_keys, cascette_formats::blte::BlteHeader::multi_chunk_with_flags, cascette_formats::blte::BlteHeader::single_chunk, cascette_formats::blte::ChunkInfo::from_chunk_data, cascette_formats::blte::ChunkData::new, cascette_formats::blte::ChunkData::from_compressed, cascette_formats::blte::ChunkData::compressed_data, cascette_formats::blte::ChunkData::verify_checksum, cascette_formats::blte::ChunkData::decompress, cascette_crypto::salsa20::Salsa20Cipher::new, cascette_crypto::salsa20::Salsa20Cipher::apply_keystream, cascette_crypto::salsa20::encrypt_salsa20, cascette_crypto::salsa20::decrypt_salsa20, cascette_crypto::arc4::Arc4Cipher::encrypt, cascette_crypto::arc4::Arc4Cipher::decrypt
+// @assumes Salsa20 block function = uninterpreted function of the 16-word state (first 16 keystream bytes; C09 proves the real one), Salsa20Cipher::new / apply_keystream real; ARC4 keystream = uninterpreted function of the 16-byte key (KSA/PRGA proved in C09), encrypt/decrypt real; MD5 = uninterpreted function of (length, bytes <= 24); TactKeyStore add/get = two-slot association list instead of std HashMap; fmt::format off; compression mode N only (zlib / LZ4 decoders are outside: reaching one is a failed check); cipher type per chunk spec concrete per harness (name suffix: s = Salsa20, a = ARC4; first letter spec A used by with_encryption, second spec B used by add_mixed_data / add_encrypted_data); explicit block index of add_encrypted_data = chunk position + arbitrary high 32 bits; CBMC field sensitivity for heap objects <= 1024 bytes; Kani assertion-reachability bookkeeping off
+// @catches wrong block index handed to the cipher (restart at 0, off by one, local instead of global position), key / IV / type of the wrong spec, dropped / duplicated / misordered chunk at the chunk-size boundary (<= vs <, last partial chunk), inner mode byte missing or re-interpreted (payload starting with N/Z/4/E/F), < 17 length check off by one, swapped table sizes, checksum over the wrong bytes, wrong header_size / chunk count, single-chunk header chosen for encrypted or multi-chunk content ; EXPECTED TO FAIL on the unchanged tree (genuine defect)
+blte_prog!(c01_kf_index_dn2_de1_cs1, 1, S S, [Dn 2, De 1]);
+blte_prog!(c01_kf_index_mn2_de1_cs1, 1, S S, [Mn 2, De 1]);
+blte_prog!(c01_kf_index_x1_de1_cs1, 1, S S, [X 1, De 1]);
+blte_prog!(c01_kf_index3_me1_c1_de1_cs1, 1, S S, [Me 1, C 1, De 1]);
+// @end
+
